@@ -82,16 +82,19 @@ class Explorer:
     edges of the explored choice tree.
     """
 
-    def __init__(self, build, max_dev=None):
+    def __init__(self, build, max_dev=None, roots=None):
+        """roots: explore only the subtrees below these choice prefixes (used to split one choice tree over worker
+        processes: the subtrees below different first deviations are disjoint)."""
         self.build = build
         self.max_dev = max_dev
-        self.states = 1
+        self.roots = list(roots) if roots is not None else [()]
+        self.states = 1 if roots is None else 0
         self.transitions = 0
         self.leaves = 0
         self.skipped = 0
 
     def __iter__(self):
-        stack = [()]
+        stack = list(reversed(self.roots))
         while stack:
             prefix = stack.pop()
             ch = Chooser(prefix)
